@@ -920,6 +920,12 @@ func (e *Engine) localValue(fr *Frame, s *State, lr LocalRef, head *ssa.BasicBlo
 		}
 		return e.val(fr, x)
 	}
+	if lr.Entry && lr.ParamIdx >= 0 && fr.contract != nil && fr.contract.Closure > 0 && fr.contract.RecvType != "" {
+		if lr.ParamIdx == 0 {
+			return e.capturedValue(fr, s, fr.contract.RecvName)
+		}
+		return e.val(fr, fr.fn.Params[lr.ParamIdx-1])
+	}
 	if lr.Entry && lr.ParamIdx >= 0 {
 		if lr.ParamIdx >= len(fr.fn.Params) {
 			e.unsupported("header parameter %s out of range", lr.Name)
@@ -939,6 +945,11 @@ func (e *Engine) localValue(fr *Frame, s *State, lr LocalRef, head *ssa.BasicBlo
 	key := fmt.Sprintf("%s:%d:%d", lr.Decl.Filename, lr.Decl.Line, lr.Decl.Column)
 	a := idx[key]
 	if a == nil {
+		for _, fv := range fr.fn.FreeVars {
+			if fv.Name() == lr.Name {
+				return e.capturedValue(fr, s, lr.Name)
+			}
+		}
 		e.unsupported("local %s (declared at %s) has no storage in %s", lr.Name, key, fr.fn.Name())
 	}
 	p, ok := fr.vals[a]
@@ -1066,6 +1077,9 @@ func (e *Engine) val(fr *Frame, v ssa.Value) Val {
 					return fr.binds[i]
 				}
 			}
+		}
+		if r, ok := fr.vals[v]; ok {
+			return r
 		}
 		e.unsupported("free variable %s unbound", x.Name())
 	}
